@@ -54,6 +54,24 @@ abbrev Pkt := List Chunk
 /-- Go: newReceivePayloadQueue(getMaxTSNOffset(initialRecvBufSize)).maxTSNOffset -/
 def maxOff : Nat := (((Gen.getMaxTSNOffset (BitVec.ofNat 32 Gen.initialRecvBufSize)).toNat + 63) / 64) * 64
 
+/-- send half of an endpoint -/
+structure Snd where
+  attempts : Nat := 0          -- writes attempted so far (the id of the next message)
+  wlog : List Msg := []        -- accepted writes, in order
+  pend : List Msg := []        -- pendingQueue
+  sentq : List Msg := []       -- chunk that got TSN offset i (in-flight queue = entries at index >= cum)
+  cum : Nat := 0               -- cumulativeTSNAckPoint + 1 - initial TSN
+  deriving Repr, DecidableEq, Inhabited
+
+/-- receive half of an endpoint, and what its readers have seen -/
+structure Rcv where
+  pl : Nat := 0                -- peerLastTSN + 1 - peer's initial TSN
+  rq : List Nat := []          -- payloadQueue: TSNs received above the cumulative point
+  store : List Msg := []       -- complete messages in the streams' reassembly queues (not read yet)
+  rlog : List (Nat × Nat) := []  -- reader's view: (stream, message id) in the order read
+  eofs : List (Nat × Nat) := []  -- closure reported on stream s after k messages had been read from it
+  deriving Repr, DecidableEq, Inhabited
+
 structure Ep where
   st : Nat := stEstablished
   wS : Bool := false     -- willSendShutdown
@@ -64,18 +82,8 @@ structure Ep where
   ack : Nat := ackIdle   -- ackState
   imm : Bool := false    -- immediateAckTriggered (per inbound packet)
   del : Bool := false    -- delayedAckTriggered
-  -- send half
-  attempts : Nat := 0          -- writes attempted so far (the id of the next message)
-  wlog : List Msg := []        -- accepted writes, in order
-  pend : List Msg := []        -- pendingQueue
-  sentq : List Msg := []       -- chunk that got TSN offset i (in-flight queue = entries at index >= cum)
-  cum : Nat := 0               -- cumulativeTSNAckPoint + 1 - initial TSN
-  -- receive half
-  pl : Nat := 0                -- peerLastTSN + 1 - peer's initial TSN
-  rq : List Nat := []          -- payloadQueue: TSNs received above the cumulative point
-  store : List Msg := []       -- complete messages in the streams' reassembly queues (not read yet)
-  rlog : List (Nat × Nat) := []  -- reader's view: (stream, message id) in the order read
-  eofs : List (Nat × Nat) := []  -- closure reported on stream s after k messages had been read from it
+  snd : Snd := {}
+  rcv : Rcv := {}
   -- callers and loops
   sd : Nat := 0                -- Shutdown call: 0 none passed the gate, 1 waiting, 2 returned nil
   callAt : Nat := 0            -- ghost: number of accepted writes when the call passed the gate
@@ -87,11 +95,11 @@ def t2start (t : Nat) : Nat := if t == 0 then 1 else t
 def t2stop (t : Nat) : Nat := if t == 1 then 0 else t
 
 /-- Go: inflightQueue.size() -/
-def Ep.inflight (e : Ep) : Nat := e.sentq.length - e.cum
+def Ep.inflight (e : Ep) : Nat := e.snd.sentq.length - e.snd.cum
 /-- Go: hasPendingOrInflightData -/
-def Ep.hasData (e : Ep) : Bool := !e.pend.isEmpty || e.cum < e.sentq.length
+def Ep.hasData (e : Ep) : Bool := !e.snd.pend.isEmpty || e.snd.cum < e.snd.sentq.length
 /-- Go: inflightQueue.get(tsn) succeeds -/
-def Ep.inflightHas (e : Ep) (t : Nat) : Bool := e.cum ≤ t && t < e.sentq.length
+def Ep.inflightHas (e : Ep) (t : Nat) : Bool := e.snd.cum ≤ t && t < e.snd.sentq.length
 
 /-- Go: close() + what follows from it: the conn is closed so the read loop returns (state closed, every
 stream unregistered with the read error), the write loop returns (timers closed), closeWriteLoopCh is
@@ -109,50 +117,51 @@ def advance (e : Ep) (state : Nat) : Ep :=
 /-! ## inbound -/
 
 /-- Go: payloadQueue.canPush -/
-def Ep.canPush (e : Ep) (t : Nat) : Bool := !(t < e.pl || e.rq.contains t || e.pl + maxOff ≤ t)
+def Ep.canPush (e : Ep) (t : Nat) : Bool := !(t < e.rcv.pl || e.rcv.rq.contains t || e.rcv.pl + maxOff ≤ t)
 
 /-- Go: the `for { payloadQueue.pop(false) }` loop of handlePeerLastTSNAndAcknowledgement -/
 def popLoop : Nat → Nat → List Nat → Nat × List Nat
   | 0, pl, rq => (pl, rq)
   | n+1, pl, rq => if rq.contains pl then popLoop n (pl+1) (rq.erase pl) else (pl, rq)
 
+/-- the receive half after one DATA chunk that passed the state gate: pushed when `can` (Go: canPush, then
+payloadQueue.push + Stream.handleData), then the cumulative point advances over everything contiguous -/
+def rcvData (r : Rcv) (can : Bool) (t m s k : Nat) : Rcv :=
+  let r1 : Rcv := if can then { r with rq := t :: r.rq, store := r.store ++ [(m, s, k)] } else r
+  { r1 with pl := (popLoop r1.rq.length r1.pl r1.rq).1, rq := (popLoop r1.rq.length r1.pl r1.rq).2 }
+
 /-- Go: handleData (+ acceptPayloadData / pushPayloadDataToStream / handlePeerLastTSNAndAcknowledgement,
-ackMode normal). Not modelled: a full receive buffer and a refused stream (the streams exist, the buffer
-is 1 MiB). -/
+ackMode normal). In SHUTDOWN-SENT: willSendShutdown, T2 stopped, SACK at once. A SACK is due at once for a gap,
+a chunk that cannot be pushed, remaining holes, or a second packet while the ack is being delayed; otherwise it
+is delayed. Not modelled: a full receive buffer and a refused stream (the streams exist, the buffer is 1 MiB). -/
 def handleData (e : Ep) (t m s k : Nat) : Ep :=
   if e.scp || !(e.st == stEstablished || e.st == stShutdownPending || e.st == stShutdownSent) then e else
   let inSent := e.st == stShutdownSent
-  let e := if inSent then { e with wS := true, t2 := t2stop e.t2 } else e
   let can := e.canPush t
-  let e := if can then { e with rq := t :: e.rq, store := e.store ++ [(m, s, k)] } else e
-  let gap := e.pl < t
-  let sackNow := gap || !can || inSent
-  let (pl, rq) := popLoop e.rq.length e.pl e.rq
-  let e := { e with pl := pl, rq := rq }
-  if sackNow || !rq.isEmpty then { e with imm := true }
-  else if e.ack != ackImmediate then
-    (if e.ack == ackIdle then { e with del := true } else { e with imm := true })
-  else { e with imm := true }
+  let r := rcvData e.rcv can t m s k
+  let delayed := !(decide (e.rcv.pl < t) || !can || inSent || !r.rq.isEmpty) && e.ack == ackIdle
+  { e with wS := inSent || e.wS, t2 := if inSent then t2stop e.t2 else e.t2, rcv := r,
+           imm := !delayed || e.imm, del := delayed || e.del }
 
 /-- Go: processAcknowledgement restricted to the cumulative point (+ the range validation of
 processSelectiveAck); `none` = the error return -/
 def ackCum (e : Ep) (c : Nat) : Option Ep :=
-  if c < e.cum then some e
-  else if e.cum < c && !(e.inflightHas e.cum && e.inflightHas (c - 1)) then none
-  else some { e with cum := c }
+  if c < e.snd.cum then some e
+  else if e.snd.cum < c && !(e.inflightHas e.snd.cum && e.inflightHas (c - 1)) then none
+  else some { e with snd := { e.snd with cum := c } }
 
 /-- Go: handleSack -/
 def handleSack (e : Ep) (c : Nat) (gaps : List (Nat × Nat)) : Ep :=
   if !(e.st == stEstablished || e.st == stShutdownPending || e.st == stShutdownReceived) then e
-  else if c < e.cum then e
-  else if e.cum < c && !(e.inflightHas e.cum && e.inflightHas (c - 1)) then e
+  else if c < e.snd.cum then e
+  else if e.snd.cum < c && !(e.inflightHas e.snd.cum && e.inflightHas (c - 1)) then e
   else if gaps.any (fun g => g.1 < c || g.2 < g.1 || !e.inflightHas g.1 || !e.inflightHas g.2) then e
   else
     let state := e.st
-    let e := { e with cum := c }
+    let e := { e with snd := { e.snd with cum := c } }
     -- postprocessSack
-    if e.cum < e.sentq.length then e
-    else if !e.pend.isEmpty then e
+    if e.snd.cum < e.snd.sentq.length then e
+    else if !e.snd.pend.isEmpty then e
     else advance e state
 
 /-- Go: finishShutdownHandling -/
@@ -166,6 +175,10 @@ def finishShutdown (e : Ep) (state : Nat) : Ep :=
 def retransmitShutdownAck (e : Ep) : Ep :=
   if e.scp then e else { e with t2 := t2stop e.t2, wS := false, wSA := true }
 
+/-- Go: `if entersShutdownReceived(state) { a.setState(shutdownReceived) }` -/
+def enterReceived (e : Ep) : Ep :=
+  if e.st == stEstablished || e.st == stShutdownPending then { e with st := stShutdownReceived } else e
+
 /-- Go: handleShutdown -/
 def handleShutdown (e : Ep) (c : Nat) : Ep :=
   if e.scp then e
@@ -175,9 +188,8 @@ def handleShutdown (e : Ep) (c : Nat) : Ep :=
   else if !(e.st == stEstablished || e.st == stShutdownPending || e.st == stShutdownReceived) then e
   else
     let state := e.st
-    let e1 := if state == stEstablished || state == stShutdownPending then { e with st := stShutdownReceived } else e
-    match ackCum e1 c with
-    | none => { e1 with st := state }
+    match ackCum (enterReceived e) c with
+    | none => { enterReceived e with st := state }
     | some e2 => finishShutdown e2 state
 
 /-- Go: handleShutdownAck -/
@@ -217,7 +229,7 @@ def runs : List Nat → List (Nat × Nat)
     | (a, b) :: rest => if t + 1 == a then (t, b) :: rest else (t, t) :: (a, b) :: rest
     | [] => [(t, t)]
 
-def Ep.sackChunk (e : Ep) : Chunk := .sack e.pl (runs (e.rq.mergeSort (fun a b => decide (a ≤ b))))
+def Ep.sackChunk (e : Ep) : Chunk := .sack e.rcv.pl (runs (e.rcv.rq.mergeSort (fun a b => decide (a ≤ b))))
 
 /-- Go: gatherOutboundSackPackets -/
 def gatherSack (e : Ep) : Ep × List Pkt :=
@@ -227,22 +239,22 @@ def gatherSack (e : Ep) : Ep × List Pkt :=
 def gatherShut (e : Ep) : Ep × List Pkt × Bool :=
   if e.wSC then ({ e with wSC := false, wSA := false, wS := false }, [[.shutdownComplete]], false)
   else if e.wSA then ({ e with wSA := false, wS := false, t2 := t2start e.t2 }, [[.shutdownAck]], true)
-  else if e.wS then ({ e with wS := false, t2 := t2start e.t2 }, [[.shutdown e.pl]], true)
+  else if e.wS then ({ e with wS := false, t2 := t2start e.t2 }, [[.shutdown e.rcv.pl]], true)
   else (e, [], true)
 
 /-- one DATA chunk the write loop decided to put on the wire: a retransmission of a chunk still in the
 in-flight queue, or the pending message `m` taking the next TSN (anything else is not something the code can do
 and is dropped, which the correspondence then reports) -/
 def sendOne (e : Ep) (tm : Nat × Nat) : Ep × List Chunk :=
-  if tm.1 < e.sentq.length then
-    (if e.cum ≤ tm.1 then
-      match e.sentq[tm.1]? with
+  if tm.1 < e.snd.sentq.length then
+    (if e.snd.cum ≤ tm.1 then
+      match e.snd.sentq[tm.1]? with
       | some c => (e, [.data tm.1 c.1 c.2.1 c.2.2])
       | none => (e, [])
     else (e, []))
-  else if tm.1 == e.sentq.length then
-    match e.pend.find? (fun c => c.1 == tm.2) with
-    | some c => ({ e with pend := e.pend.erase c, sentq := e.sentq ++ [c] }, [.data tm.1 c.1 c.2.1 c.2.2])
+  else if tm.1 == e.snd.sentq.length then
+    match e.snd.pend.find? (fun c => c.1 == tm.2) with
+    | some c => ({ e with snd := { e.snd with pend := e.snd.pend.erase c, sentq := e.snd.sentq ++ [c] } }, [.data tm.1 c.1 c.2.1 c.2.2])
     | none => (e, [])
   else (e, [])
 
@@ -261,34 +273,37 @@ def sendData (e : Ep) : List (List (Nat × Nat)) → Ep × List Pkt
     let r2 := sendData r1.1 rest
     (r2.1, (if r1.2.isEmpty then [] else [r1.2]) ++ r2.2)
 
-/-- Go: gatherOutbound (priority packets, then the per-state part); `d` = the DATA packets of this pass -/
-def gather (e : Ep) (d : List (List (Nat × Nat))) : Ep × List Pkt × Bool :=
-  if e.wSC then gatherShut e else
-  let r0 : Ep × List Pkt :=
-    if e.st == stShutdownAckSent && e.wSA then (let r := gatherShut e; (r.1, r.2.1))
-    else if e.st == stShutdownSent && e.wS then
-      (let r1 := gatherSack e; let r2 := gatherShut r1.1; (r2.1, r1.2 ++ r2.2.1))
-    else (e, [])
-  let e := r0.1
-  let state := e.st
-  if state == stEstablished then
+/-- Go: gatherOutboundPriorityPackets, the two non-terminal cases (a SHUTDOWN-ACK / SACK+SHUTDOWN that must not wait) -/
+def gatherPrio (e : Ep) : Ep × List Pkt :=
+  if e.st == stShutdownAckSent && e.wSA then (let r := gatherShut e; (r.1, r.2.1))
+  else if e.st == stShutdownSent && e.wS then
+    (let r1 := gatherSack e; let r2 := gatherShut r1.1; (r2.1, r1.2 ++ r2.2.1))
+  else (e, [])
+
+/-- Go: gatherOutbound, the `switch state` part; `d` = the DATA packets of this pass -/
+def gatherState (e : Ep) (d : List (List (Nat × Nat))) : Ep × List Pkt × Bool :=
+  if e.st == stEstablished then
     let r1 := sendData e d
     let r2 := gatherSack r1.1
-    (r2.1, r0.2 ++ r1.2 ++ r2.2, true)
-  else if state == stShutdownPending || state == stShutdownReceived then
+    (r2.1, r1.2 ++ r2.2, true)
+  else if e.st == stShutdownPending || e.st == stShutdownReceived then
     let r1 := sendData e d
-    let e := advance r1.1 state
+    let r2 := gatherSack (advance r1.1 e.st)
+    let r3 := gatherShut r2.1
+    (r3.1, r1.2 ++ r2.2 ++ r3.2.1, r3.2.2)
+  else if e.st == stShutdownSent then
     let r2 := gatherSack e
     let r3 := gatherShut r2.1
-    (r3.1, r0.2 ++ r1.2 ++ r2.2 ++ r3.2.1, r3.2.2)
-  else if state == stShutdownSent then
-    let r2 := gatherSack e
-    let r3 := gatherShut r2.1
-    (r3.1, r0.2 ++ r2.2 ++ r3.2.1, r3.2.2)
-  else if state == stShutdownAckSent then
-    let r3 := gatherShut e
-    (r3.1, r0.2 ++ r3.2.1, r3.2.2)
-  else (e, r0.2, true)
+    (r3.1, r2.2 ++ r3.2.1, r3.2.2)
+  else if e.st == stShutdownAckSent then gatherShut e
+  else (e, [], true)
+
+/-- Go: gatherOutbound (the terminal SHUTDOWN-COMPLETE first, then priority packets, then the per-state part) -/
+def gather (e : Ep) (d : List (List (Nat × Nat))) : Ep × List Pkt × Bool :=
+  if e.wSC then gatherShut e else
+  let r0 := gatherPrio e
+  let r := gatherState r0.1 d
+  (r.1, r0.2 ++ r.2.1, r.2.2)
 
 /-- one iteration of writeLoop: gatherOutbound, send, `if !ok { a.close(); return }` -/
 def writeLoopPass (e : Ep) (d : List (List (Nat × Nat))) : Ep × List Pkt :=
@@ -300,19 +315,19 @@ def writeLoopPass (e : Ep) (d : List (List (Nat × Nat))) : Ep × List Pkt :=
 
 /-- next stream sequence number of stream `s` (Go: Stream.sequenceNumber / nextOrderedMID; a rejected
 write gives its number back) -/
-def Ep.nextSsn (e : Ep) (s : Nat) : Nat := (e.wlog.filter (fun w => w.2.1 == s)).length
+def Ep.nextSsn (e : Ep) (s : Nat) : Nat := (e.snd.wlog.filter (fun w => w.2.1 == s)).length
 
 /-- Go: Stream.WriteSCTP → sendPayloadData: accepted only in ESTABLISHED. Result: accepted? -/
 def write (e : Ep) (s : Nat) : Ep × Bool :=
   if e.st == stEstablished then
-    let w : Msg := (e.attempts, s, e.nextSsn s)
-    ({ e with attempts := e.attempts + 1, wlog := e.wlog ++ [w], pend := e.pend ++ [w] }, true)
-  else ({ e with attempts := e.attempts + 1 }, false)
+    let w : Msg := (e.snd.attempts, s, e.nextSsn s)
+    ({ e with snd := { e.snd with attempts := e.snd.attempts + 1, wlog := e.snd.wlog ++ [w], pend := e.snd.pend ++ [w] } }, true)
+  else ({ e with snd := { e.snd with attempts := e.snd.attempts + 1 } }, false)
 
 /-- Go: Association.Shutdown up to the wait. Result: did the call pass the state gate? -/
 def shutdownCall (e : Ep) : Ep × Bool :=
   if e.st == stEstablished then
-    let e := { e with st := stShutdownPending, sd := 1, callAt := e.wlog.length }
+    let e := { e with st := stShutdownPending, sd := 1, callAt := e.snd.wlog.length }
     (if e.hasData then e else { e with wS := true, st := stShutdownSent }, true)
   else (e, false)
 
@@ -328,20 +343,20 @@ def t2Fire (e : Ep) : Ep :=
 def ackFire (e : Ep) : Ep :=
   if e.ack == ackDelay && !e.dead then { e with ack := ackImmediate } else e
 
-def Ep.readOn (e : Ep) (s : Nat) : List Nat := (e.rlog.filter (fun r => r.1 == s)).map (·.2)
+def Rcv.readOn (r : Rcv) (s : Nat) : List Nat := (r.rlog.filter (fun x => x.1 == s)).map (·.2)
 
 /-- Go: Stream.ReadSCTP called while something is readable: the ordered message with the next sequence number -/
-def drain : Nat → Ep → Nat → Ep
-  | 0, e, _ => e
-  | n+1, e, s =>
-    match e.store.find? (fun c => c.2.1 == s && c.2.2 == (e.readOn s).length) with
-    | none => e
-    | some c => drain n { e with store := e.store.erase c, rlog := e.rlog ++ [(s, c.1)] } s
+def drain : Nat → Rcv → Nat → Rcv
+  | 0, r, _ => r
+  | n+1, r, s =>
+    match r.store.find? (fun c => c.2.1 == s && c.2.2 == (r.readOn s).length) with
+    | none => r
+    | some c => drain n { r with store := r.store.erase c, rlog := r.rlog ++ [(s, c.1)] } s
 
 /-- drain stream `s`, then one more ReadSCTP if the stream carries a read error (closure is reported) -/
 def read (e : Ep) (s : Nat) : Ep :=
-  let e := drain e.store.length e s
-  if e.dead then { e with eofs := e.eofs ++ [(s, (e.readOn s).length)] } else e
+  let r := drain e.rcv.store.length e.rcv s
+  { e with rcv := if e.dead then { r with eofs := r.eofs ++ [(s, (r.readOn s).length)] } else r }
 
 /-- Go: OpenStream's state gate -/
 def openOk (e : Ep) : Bool :=
